@@ -137,12 +137,12 @@ theorem getRange_eq (ix : Index D) (lo hi : Nat) (w : Bool) :
       | none => ⟨elemsHash A (slRange ix.sl lo hi), pairs (slRange ix.sl lo hi), (slRange ix.sl lo hi).length⟩ := rfl
 
 theorem widthOk_split (sl : List Elem) (g lo hi : Nat) (hw : WidthOk S p sl g lo hi)
-    (hc : (slRange sl lo hi).length > p.thr) : SplitOk S p.df lo hi := by
+    (hc : Div S p sl lo hi) : SplitOk S p.df lo hi := by
   cases g with
-  | zero => simp only [WidthOk] at hw; omega
+  | zero => simp only [WidthOk] at hw; exact absurd hc hw
   | succ g =>
     rcases hw with h | h
-    · omega
+    · exact absurd hc h
     · exact h.1
 
 /-- what an answer of a canonical index looks like -/
@@ -150,7 +150,7 @@ structure AnsOk (sl : List Elem) (lo hi : Nat) (w : Bool) (r : RangeRes D) : Pro
   dig : IsDigest A S p sl lo hi r.hash
   count : r.count = (slRange sl lo hi).length
   elems : r.elems = pairs (slRange sl lo hi) ∨
-    (w = false ∧ r.elems = [] ∧ ((slRange sl lo hi).length > p.thr → SplitOk S p.df lo hi))
+    (w = false ∧ r.elems = [] ∧ (Div S p sl lo hi → SplitOk S p.df lo hi))
 
 theorem slRange_all (sl : List Elem) (hlt : ∀ e, e ∈ sl → e.hash < M) : slRange sl 0 (M - 1) = sl := by
   unfold slRange
@@ -178,7 +178,7 @@ theorem getRange_canon (sl : List Elem) (hok : TopOk S p sl) (hlt : ∀ e, e ∈
     obtain ⟨c, h⟩ := ch
     -- facts about the found node
     have hnode : c = (slRange sl lo hi).length ∧ IsDigest A S p sl lo hi h ∧
-        ((slRange sl lo hi).length > p.thr → SplitOk S p.df lo hi) := by
+        (Div S p sl lo hi → SplitOk S p.df lo hi) := by
       unfold buildTop at hfn
       rw [findNode_succ_div] at hfn
       split at hfn
